@@ -57,6 +57,10 @@ theorem foldl_pres {α β : Type} (π : Stack → β) (f : Stack → α → Stac
 @[simp] theorem base_with_findLog (s : Stack) (x : List (Nat × Nat)) : base { s with findLog := x } = base s := rfl
 @[simp] theorem base_with_findMarks (s : Stack) (x : List (Nat × Nat)) : base { s with findMarks := x } = base s := rfl
 @[simp] theorem base_with_ansLog (s : Stack) (x : List (Nat × Addr × Nat × Nat)) : base { s with ansLog := x } = base s := rfl
+@[simp] theorem base_with_lisLog (s : Stack) (x : List (LId × Bool × SvcKey × Addr)) : base { s with lisLog := x } = base s := rfl
+@[simp] theorem base_logLis (s : Stack) (id : LId) (o : Bool) (k : SvcKey) (a : Addr) : base (s.logLis id o k a) = base s := rfl
+@[simp] theorem base_with_lisDup (s : Stack) (x : Bool) : base { s with lisDup := x } = base s := rfl
+@[simp] theorem base_markDup (s : Stack) (d : Bool) : base (s.markDup d) = base s := rfl
 @[simp] theorem base_logAnswer (s : Stack) (i : Nat) (a : Addr) (d : Nat) : base (s.logAnswer i a d) = base s := rfl
 @[simp] theorem base_markFind (s : Stack) (n : Nat) : base (s.markFind n) = base s := rfl
 @[simp] theorem base_with_offLog (s : Stack) (x : List (Nat × OEv × Nat)) : base { s with offLog := x } = base s := rfl
@@ -260,13 +264,13 @@ theorem foldl_pres {α β : Type} (π : Stack → β) (f : Stack → α → Stac
   rw [foldl_pres base _ (fun s p => by frame_cases)]
 
 @[simp] theorem base_watchService (s : Stack) (f : Service) (l : Listener) : base (s.watchService f l) = base s := by
-  unfold watchService; simp only []; rw [base_replay]; rfl
+  unfold watchService; simp only []; rw [base_markDup, base_replay]; rfl
 @[simp] theorem base_stopWatchService (s : Stack) (f : Service) (l : Listener) : base (s.stopWatchService f l) = base s := by
   unfold stopWatchService; simp only []; split
   · simp
   · rw [base_replay]; rfl
 @[simp] theorem base_watchAllServices (s : Stack) (id : LId) : base (s.watchAllServices id) = base s := by
-  unfold watchAllServices; rw [base_replay]; rfl
+  unfold watchAllServices; rw [base_markDup, base_replay]; rfl
 @[simp] theorem base_stopWatchAllServices (s : Stack) (id : LId) : base (s.stopWatchAllServices id) = base s := by
   unfold stopWatchAllServices; split
   · simp
